@@ -16,6 +16,7 @@ OUT=$V/mutants/RESULTS.txt
 : > $OUT.new
 for d in $V/mutants/*${1}*.diff; do
   n=$(basename $d .diff); prop=$(grep -o 'property=C[0-9]*' $V/mutants/$n.meta | cut -d= -f2)
+  [ -f $V/mutants/$n.masked ] && { echo "$n $prop MASKED $(head -1 $V/mutants/$n.masked)" | tee -a $OUT.new; continue; }
   if ! (cd $R && patch -p1 -s --dry-run < $d >/dev/null 2>&1); then echo "$n $prop DOES-NOT-APPLY" | tee -a $OUT.new; continue; fi
   (cd $R && patch -p1 -s < $d)
   t0=$(date +%s)
